@@ -116,6 +116,12 @@ impl<Error: Send + 'static> DecodeScheduler<Error> {
 		if self.shared.state() == PlaybackState::Stopped {
 			return Ok(NextStep::End);
 		}
+		// if the sound was dropped without being stopped (it was refused by a
+		// full track, or discarded along with its track or the manager), nobody
+		// will ever read the frames or stop the sound, so end the thread
+		if self.frame_producer.is_abandoned() {
+			return Ok(NextStep::End);
+		}
 		// if the frame ringbuffer is full, sleep for a bit
 		if self.frame_producer.is_full() {
 			return Ok(NextStep::Wait);
